@@ -161,6 +161,13 @@ def run(tier, seed):
                     bad.append(dict(failed="collect command tabulates exactly the logged values (run again in the same process after the trace grew: %d rows for %d snapshots)" % (len(rows), len(rec)), case=dict(info)))
             except Exception as ex:
                 bad.append(dict(failed="collect after growth raised %s: %s" % (type(ex).__name__, ex), case=dict(info)))
+        # the weight of a trace survives a reload (zero included)
+        from mudslide.tracer import YAMLTrace as _Y, load_log as _ll
+        for w_ in (0.0, 0.3125, 1.0):
+            yw = _Y(base_name="w", location=d, log_pitch=2, weight=w_); yw.collect(snap(1, rng)); yw.collect(snap(2, rng)); yw.collect(snap(3, rng))
+            lw = _ll(os.path.join(d, yw.main_log)); res.count("weight-reload")
+            if float(lw.weight) != w_:
+                bad.append(dict(failed="a YAML trace reloaded from disk returns what was recorded: weight %r reloads as %r" % (w_, float(lw.weight)), case=dict(info)))
         nsn = sum(len(h[2]) for h in handles)
         res.count("ops", len(ops))
         for o in ops: res.count("op/" + o[0])
